@@ -4,10 +4,13 @@ pub mod conc;
 pub mod ctor;
 pub mod faults;
 pub mod hist;
+pub mod overflow;
+pub mod serde_eng;
 pub mod shadow;
 pub mod shapes;
 pub mod thin;
 pub mod tk;
+pub mod uninit;
 pub mod util;
 
 #[global_allocator]
